@@ -33,7 +33,7 @@ fn spec(t: Tier) -> Spec {
 // part 1: kinds
 // ---------------------------------------------------------------------------------------------
 
-fn build_kinds(sbx: &Path) -> Result<(), String> {
+pub fn build_kinds(sbx: &Path) -> Result<(), String> {
     let e = |x: std::io::Error| x.to_string();
     for d in ["r", "out"] {
         let _ = crate::sandbox::force_remove(&sbx.join(d));
